@@ -1,7 +1,7 @@
 (* Exec2.v — executable instances of Ops.v / Spec2.v on cells = list Q and the second half of
    the operation interpreter run by the correspondence check. *)
 From Coq Require Import QArith Qround.
-From HS Require Import Prelude Cov Map Spec Ops Spec2 Exec Packed Moc Sharing CatChk PackedCopy.
+From HS Require Import Prelude Cov Map Spec Ops Spec2 Exec Packed Moc Sharing CatChk PackedCopy WideRow.
 Open Scope Z_scope.
 
 (* ---------- element arithmetic on Q ---------- *)
@@ -386,6 +386,7 @@ Definition step2 (w : world) (op : list (list Z)) : world * result :=
    [46];[0 nd si st];data                   -> population count of the view (sum())
    [47];[0 nd si st];data                   -> bytes of copy() (padding of the edge bytes cleared)
    [48];[0 nd si st];data;[newsize]         -> view and bytes after resize(newsize), or raised
+   [49];[width];bits                        -> the byte row of a bit list (wide masks) and its integer
    [44];[kind];locs;data                    -> bytes after set (0) / clear (1) of the bits at locs, or the
                                                tested bits (2), or set locs then clear the locs of group 4 (3);
                                                locs already shifted by the start index *)
@@ -410,6 +411,10 @@ Definition packed_monitor (op : list (list Z)) : result :=
     (* [45];[producer code] -> what the producer's result shares with its first argument *)
     let s := prod_shares (gz op 1 0) in
     [ok1; [Z.b2z (s_cov s); Z.b2z (s_sp s); Z.b2z (s_meta s)]]
+  else if code =? 49 then
+    (* [49];[width];bits -> the row _bitvals_to_packed_array builds, and its little-endian integer *)
+    let row := bitvals_to_packed (grp op 2) (gz op 1 0) in
+    [ok1; row; [le_int row]]
   else if code =? 47 then
     (* [47];[0 nd si st];data -> bytes of copy() *)
     [ok1; copy_view (view_of (grp op 1)) (grp op 2)]
